@@ -209,6 +209,17 @@ func ZZ_C05_Resume() {
 		zzrt.Cover("fresh")
 	}
 	zzrt.Assert(srv.clients["c1"] == c2, "new-connection-is-the-registered-one")
+	// the connection now stays up for longer than any earlier offline deadline; the periodic
+	// sweep must not touch the session of a connected client
+	zzrt.ClockAdvance(time.Duration(1<<23) * time.Second)
+	srv.sessionExpireCheck()
+	zzrt.Assert(srv.clients["c1"] == c2, "sweep-leaves-the-session-of-a-connected-client-alone")
+	still, _ := srv.sessionStore.Get("c1")
+	zzrt.Assert(still != nil, "sweep-leaves-the-session-of-a-connected-client-alone")
+	if mustResume {
+		got := subscription.GetClientSubscriptions(srv.subscriptionsDB, "c1", subscription.TypeAll)
+		zzrt.Assert(len(got) == 1, "sweep-leaves-the-session-of-a-connected-client-alone")
+	}
 }
 
 // ZZ_C05_Takeover: a CONNECT for a client id whose previous connection is still
